@@ -229,9 +229,9 @@ def run_generate(case, rec):
 
 # ------------------------------------------------------------------ (ii) construct with corruptions
 RSA_FAULTS = ["valid-ne", "valid-ned", "valid-nedpq", "valid-nedpqu", "valid-swapped", "n+2", "n-2", "d+2", "d-wrong-mod", "p-composite", "p-carmichael",
-              "pq!=n", "e-1", "e>=n", "u-wrong", "q-composite", "d=1", "d>=n", "n-even", "p=q"]
+              "pq!=n", "e-1", "e>=n", "u-wrong", "q-composite", "d=1", "d>=n", "n-even", "p=q", "q=0", "p=0", "n=0"]
 DSA_FAULTS = ["valid-4", "valid-5", "p-composite", "q-composite", "q-not-dividing", "g=0", "g=1", "g=p-1", "g=p", "g-wrong-order", "y!=g^x", "x=0", "x=q", "x=q+1",
-              "y=0", "y=p", "y>=p"]
+              "y=0", "y=p", "y>=p", "q=0", "p=0"]
 ELG_FAULTS = ["valid-3", "valid-4", "p-composite", "g=1", "g=p", "y!=g^x", "x=0", "x=p", "y=0", "y=p"]
 ECC_FAULTS = ["valid-d", "valid-xy", "valid-dxy", "valid-seed", "off-curve-y+1", "off-curve-y-1", "x>=p", "y>=p", "infinity", "twist", "d=0", "d=n", "d=n+1",
               "d-mismatch", "seed-short", "seed-long", "mont-low-order", "mont-low-order-alias", "ed-not-on-curve", "x-only-for-ws", "d-and-seed"]
@@ -281,7 +281,7 @@ def run_construct(case, rec):
             "valid-ne": (n, e), "valid-ned": (n, e, d), "valid-nedpq": (n, e, d, p, q), "valid-nedpqu": (n, e, d, p, q, u), "valid-swapped": (n, e, d, q, p),
             "n+2": (n + 2, e, d, p, q), "n-2": (n - 2, e, d, p, q), "d+2": (n, e, d + 2, p, q), "d-wrong-mod": (n, e, (d + (p - 1)) if math.gcd(q - 1, p - 1) != q - 1 else d + 2, p, q),
             "pq!=n": (n, e, d, p, int(sympy.nextprime(q))), "e-1": (n, 1, d, p, q), "e>=n": (n, n + 2, d, p, q), "u-wrong": (n, e, d, p, q, u + 1),
-            "d=1": (n, e, 1, p, q), "d>=n": (n, e, d + lcm * (n // lcm + 1), p, q), "n-even": (n + 1, e), "p=q": (p * p, e, pow(e, -1, p * (p - 1)) if math.gcd(e, p * (p - 1)) == 1 else d, p, p),
+            "q=0": (n, e, d, p, 0), "p=0": (n, e, d, 0, q), "n=0": (0, e, d, p, q), "d=1": (n, e, 1, p, q), "d>=n": (n, e, d + lcm * (n // lcm + 1), p, q), "n-even": (n + 1, e), "p=q": (p * p, e, pow(e, -1, p * (p - 1)) if math.gcd(e, p * (p - 1)) == 1 else d, p, p),
         }.get(fault)
         if fault in ("p-composite", "q-composite", "p-carmichael"):
             # composite "factor" with n = p'*q and d consistent with the fake factorisation
@@ -318,7 +318,7 @@ def run_construct(case, rec):
             "q-composite": (y, g, p, q + 2 if not sympy.isprime(q + 2) else q + 4, x), "q-not-dividing": (y, g, p, int(sympy.nextprime(q)), x),
             "g=0": (y, 0, p, q, x), "g=1": (1, 1, p, q, x), "g=p-1": (pow(p - 1, x, p), p - 1, p, q, x), "g=p": (y, p, p, q, x),
             "g-wrong-order": (pow(2, x, p), 2, p, q, x), "y!=g^x": (y + 1, g, p, q, x), "x=0": (1, g, p, q, 0), "x=q": (1, g, p, q, q), "x=q+1": (g, g, p, q, q + 1),
-            "y=0": (0, g, p, q), "y=p": (p, g, p, q), "y>=p": (y + p, g, p, q),
+            "y=0": (0, g, p, q), "y=p": (p, g, p, q), "y>=p": (y + p, g, p, q), "q=0": (y, g, p, 0, x), "p=0": (y, g, 0, q, x),
         }[fault]
         if fault == "g-wrong-order" and pow(2, q, p) == 1:
             raise Skip()
